@@ -169,6 +169,8 @@ def _chains():
         ops = [["new", i, 1] for i in range(4)]
         ops += [["set", 3, a, b] for a, b in perm]
         out.append(ops)
+    # a container assertion whose inference overwrites a scalar field: the overwritten value dies at once
+    out.extend(_sg.overwrite_families())
     return out
 
 
